@@ -31,7 +31,7 @@ func init() {
 type xcase struct {
 	Class  string          `json:"class"`
 	Param  string          `json:"param"`
-	Value  []byte          `json:"value"`  // the extension value; nil with NoExt => certificate without SGX extension
+	Value  []byte          `json:"value"` // the extension value; nil with NoExt => certificate without SGX extension
 	NoExt  bool            `json:"no_ext"`
 	NExt   int             `json:"n_ext"`  // total number of certificate extensions (6 is what Intel issues)
 	Expect string          `json:"expect"` // "exact" | "error" | "sane"
